@@ -81,7 +81,9 @@ def make_inputs(M, wcs, rects, bottom_up):
     from toasty.image import Image
 
     imgs = []
-    for (x0, y0, x1, y1, nb) in rects:
+    for k, (x0, y0, x1, y1, nb) in enumerate(rects):
+        # bottom_up: True / False for all inputs, or "mixed" / "mixed2" = alternating storage parities
+        bu = bottom_up if isinstance(bottom_up, bool) else ((k % 2 == 0) if bottom_up == "mixed" else (k % 2 == 1))
         d = M[y0:y1, x0:x1].copy()
         if nb:
             d[:nb, :] = np.nan
@@ -89,7 +91,7 @@ def make_inputs(M, wcs, rects, bottom_up):
             d[:, :nb] = np.nan
             d[:, -nb:] = np.nan
         w = sub_wcs(wcs, x0, y0)
-        if bottom_up:
+        if bu:
             w, d = flip(w, d)
         imgs.append(Image.from_array(d, wcs=w, default_format="fits"))
     return imgs
@@ -150,7 +152,7 @@ def serial_case(d, size, dname, rects, bottom_up, order, fmt, part):
 
     w, h = size
     cfg = {"mosaic": size, "decomposition": dname, "bottom_up_inputs": bottom_up, "order": list(order), "format": fmt}
-    part.case(nontrivial=("overlap" in dname or "nan" in dname or list(order) != sorted(order) or bottom_up))
+    part.case(nontrivial=("overlap" in dname or "nan" in dname or list(order) != sorted(order) or bottom_up is not False))
 
     def bad(clause, detail):
         part.violation("%s/%s" % (clause, fmt), "%r: %s" % (cfg, detail), cfg)
@@ -305,14 +307,16 @@ def run(tier, seed):
         "(uniform) x all input orders x {fits, npy}: MultiTanProcessor vs tiling the pasted mosaic. E1: the multi-TAN stage with shared tiles under the "
         "virtual scheduler (lock/read/write choice points); states = canonical states; non-trivial = overlap, NaN border, permuted order or bottom-up inputs" % (sizes,)
     )
-    rep.assumptions = stages.ASSUMPTIONS + ["collections mixing bottom-up and top-down inputs are refused by toasty up front ('not on uniform WCS grid') and are outside the check", "inputs share one pixel grid (integer offsets); overlapping inputs agree"]
+    rep.assumptions = stages.ASSUMPTIONS + ["collections mixing bottom-up and top-down inputs are covered with CD-matrix headers (with CDELT/PC-form headers toasty refuses them up front as 'not on uniform WCS grid', which is a refusal, not a wrong result)", "inputs share one pixel grid (integer offsets); overlapping inputs agree"]
     cases = []
     for size in sizes:
         for dname, rects in decompositions(size[0], size[1], tier):
-            for bottom_up in (True, False):
+            for bottom_up in (True, False, "mixed", "mixed2"):
+                if tier == "quick" and bottom_up == "mixed2" and len(rects) < 3:
+                    continue
                 for order in itertools.permutations(range(len(rects))):
                     for fmt in ("fits", "npy"):
-                        if tier == "quick" and fmt == "npy" and (len(rects) > 2 or not bottom_up):
+                        if tier == "quick" and fmt == "npy" and (len(rects) > 2 or bottom_up is not True):
                             continue
                         if tier == "quick" and size[0] >= 600 and not ("nan" in dname or dname in ("three", "quad-l")):
                             continue
@@ -321,10 +325,11 @@ def run(tier, seed):
     n = 28
     jobs = [("serial", cases[i::n]) for i in range(n) if cases[i::n]]
     two = [(0, 0, 110, 60, 0), (100, 0, 200, 60, 4)]
-    cfgs = [MultiTanTree(size=(200, 60), rects=two, bottom_up=True, W=2)]
+    three_small = [(0, 0, 90, 60, 0), (80, 0, 170, 60, 3), (160, 0, 240, 60, 0)]
+    cfgs = [MultiTanTree(size=(200, 60), rects=two, bottom_up=True, W=2), MultiTanTree(size=(200, 60), rects=two, bottom_up="mixed", W=2, io_points=False)]
     if tier == "thorough":
         three = [(0, 0, 90, 60, 0), (80, 0, 170, 60, 3), (160, 0, 240, 60, 0)]
-        cfgs += [MultiTanTree(size=(240, 60), rects=three, bottom_up=True, W=2), MultiTanTree(size=(200, 60), rects=two, bottom_up=False, W=3), MultiTanTree(size=(300, 60), rects=[(0, 0, 160, 60, 0), (150, 0, 300, 60, 0)], bottom_up=True, W=2)]
+        cfgs += [MultiTanTree(size=(240, 60), rects=three, bottom_up=True, W=2), MultiTanTree(size=(240, 60), rects=three_small, bottom_up="mixed", W=2, io_points=False), MultiTanTree(size=(200, 60), rects=two, bottom_up=False, W=3), MultiTanTree(size=(300, 60), rects=[(0, 0, 160, 60, 0), (150, 0, 300, 60, 0)], bottom_up=True, W=2)]
     for c in cfgs:
         c.seed = seed
     jobs = [("e1", c) for c in cfgs] + jobs
